@@ -1077,7 +1077,7 @@ func Spec() *mon.Spec {
 	return &mon.Spec{
 		ID: "C43", Level: "exploration",
 		Rule: "files phase: case = one generated directory tree (cwd with 0..25 entries of hostile names: spaces, quotes, metacharacters, control characters, invalid UTF-8, unicode, leading - . ~; files, executables, directories, links to directories/files, dangling links; populated sub directories, a sibling and a HOME directory) and 8 code buffers `<template> <typed word>` where the typed word is directory part + a prefix of an entry name written as 1..3 bareword / single-quoted / double-quoted (possibly unterminated, escapes) segments, optionally after ~ or $var; argument, redirection and command-with-slash positions; every candidate is substituted, re-parsed and evaluated; up to two offered directories are completed further. " +
-			"names phase: variables, namespaces, functions, map keys and PATH commands declared under hostile names; buffers $x, $ns:x, $@x, set/tmp/del x, command heads, $m[x; every candidate substituted and evaluated. Non-trivial = Complete call that offered at least one candidate; distinct by buffer text and candidate count.",
+			"generic phase: a Config.ArgGenerator returning 3..22 arbitrary hostile strings (also empty, with slashes) as plain and complex candidates with code suffixes ('', ' ', '/', '=', '  ') and optional display text; the offered set must be exactly the candidates starting with the seed, each inserted as <word evaluating to the candidate> + <unquoted suffix>. names phase: variables, namespaces, functions, map keys and PATH commands declared under hostile names; buffers $x, $ns:x, $@x, set/tmp/del x, command heads, $m[x; every candidate substituted and evaluated. Non-trivial = Complete call that offered at least one candidate; distinct by buffer text and candidate count.",
 		Assumptions: []string{
 			"hidden entries (leading '.') for a typed prefix that does not start with '.': accepted offered or not (edit:complete-filename documents them as not offered, the property says 'entries that start with the typed prefix')",
 			"command position with a slash: directories and files with an execute bit must be offered, other files may or may not be",
@@ -1086,14 +1086,16 @@ func Spec() *mon.Spec {
 			"the menu text of a file candidate must be the completed value or its last path component",
 		},
 		Phases: []mon.Phase{
-			{Name: "files", Quick: 3000, Thorough: 60000, Run: runFiles},
-			{Name: "names", Quick: 1500, Thorough: 30000, Run: runNames},
+			{Name: "files", Quick: 3000, Thorough: 40000, Run: runFiles},
+			{Name: "names", Quick: 1500, Thorough: 20000, Run: runNames},
+			{Name: "generic", Quick: 3000, Thorough: 40000, Run: runGeneric},
 		},
 		ChildSetup: childSetup,
 		Floors: map[string]int{"distinct_nontrivial": 7000, "candidates_checked": 30000, "candidates_redir": 5000, "candidates_command": 2000,
 			"hostile_candidates": 25000, "unprintable_candidates": 12000, "style_single": 8000, "style_double": 12000, "style_bare": 6000,
 			"unterminated_seeds": 2000, "compound_seeds": 2000, "continued_buffers": 4000,
 			"variable_candidates_declared": 1500, "variable_candidates_in_namespace": 200, "lhs_candidates_assigned": 2000,
+			"generic_candidates_checked": 25000, "generic_complex_candidates": 12000,
 			"command_functions_called": 2000, "command_externals_checked": 2000, "index_candidates_checked": 1500},
 	}
 }
